@@ -38,7 +38,7 @@ var BinOps = []string{"|", ",", "+", "-", "*", "/", "%", "//", "==", "!=", "<", 
 
 var Keys = []string{"a", "b", "c", "d", "e", "aa", "ab", "k", "x", "name", "id", "<<", "a*", "?", "0", "1", "-1", "+@id", "+content"}
 
-var Strs = []string{"", "a", "b", "cat", "a*", "*", "?", "a b", "1", "true", "null", "~", "0x1F", "1e3", "<<", "[", "]]", "a,b", "a=b", "x: y", "{\"a\":1}", "<a>1</a>", "</a>", "a\nb", "é", "😀", "\\d+", "(?P<n>a)", "(", "[a-", "2006-01-02", "2021-05-01T01:02:03Z", "Mon, 02 Jan 2006", "Australia/Sydney", "YQ==", "%zz", "a%20b", "$HOME", "${X}", "%", "\\", "'", "\""}
+var Strs = []string{"", "a", "b", "cat", "a*", "*", "?", "a b", "1", "true", "null", "~", "0x1F", "1e3", "<<", "[", "]]", "a,b", "a=b", "x: y", "{\"a\":1}", "<a>1</a>", "</a>", "a\nb", "é", "😀", "\\d+", "(?P<n>a)", "(", "[a-", "2006-01-02", "2021-05-01T01:02:03Z", "Mon, 02 Jan 2006", "Australia/Sydney", "YQ==", "%zz", "a%20b", "$HOME", "${X}", "%", "\\", "'", "\"", "!!map", "!!seq", "!!str", "!!int", "!!null", "!custom", ".a", "eval(.a)", "eval(.)", ".[] | eval(.)"}
 
 func quote(s string) string {
 	var b strings.Builder
@@ -76,11 +76,35 @@ func lit(t *rapid.T) string {
 	case 6:
 		return rapid.SampledFrom([]string{"true", "false", "null", "~", "True", "NULL"}).Draw(t, "kw")
 	case 7:
-		return "[]"
+		return rapid.SampledFrom([]string{"[]", "[]", dataLit(t)}).Draw(t, "l7")
 	case 8:
-		return "{}"
+		return rapid.SampledFrom([]string{"{}", "{}", dataLit(t)}).Draw(t, "l8")
 	default:
 		return quote(rapid.StringN(0, 6, 12).Draw(t, "rs"))
+	}
+}
+
+// dataLit is a small literal collection whose keys and string values come from the same three words,
+// so that a value of one map reads like a key of another
+func dataLit(t *rapid.T) string {
+	w := func() string { return rapid.SampledFrom([]string{`"a"`, `"b"`, `"c"`, "1", "null"}).Draw(t, "dw") }
+	m := func() string {
+		n := rapid.IntRange(1, 2).Draw(t, "dn")
+		var parts []string
+		for i := 0; i < n; i++ {
+			parts = append(parts, rapid.SampledFrom([]string{`"a"`, `"b"`, `"c"`}).Draw(t, "dk")+": "+w())
+		}
+		return "{" + strings.Join(parts, ", ") + "}"
+	}
+	switch rapid.IntRange(0, 3).Draw(t, "dl") {
+	case 0:
+		return m()
+	case 1:
+		return "[" + m() + "]"
+	case 2:
+		return "[" + m() + ", " + m() + "]"
+	default:
+		return "[" + w() + ", " + w() + "]"
 	}
 }
 
@@ -127,8 +151,8 @@ var pure bool
 
 var impure = map[string]bool{"now": true, "shuffle": true, "sort_keys(.)": true, "sort_keys(..)": true, "split_doc": true, "explode(.)": true, "envsubst": true, "error": true,
 	"map_values": true, "del": true, "delpaths": true, "eval": true, "sort_keys": true, "explode": true, "load_str": true, "load": true, "load_xml": true, "load_props": true, "load_base64": true,
-	"from_unix|tz": true, "tz": true, "array_to_map": true, "to_unix": true, "from_unix": true, "format_datetime": true, "filename": true, "file_index": true, "fi": true,
-	"=": true, "|=": true, "+=": true, "-=": true, "*=": true, "*=+": true, "=c": true, "|=c": true, "sub": false, "with": true, "setpath": true, "with_dtf": true}
+	"from_unix|tz": true, "tz": true, "array_to_map": true, "to_unix": true, "from_unix": true, "format_datetime": false, "filename": true, "file_index": true, "fi": true,
+	"=": true, "|=": true, "+=": true, "-=": true, "*=": true, "*=+": true, "=c": true, "|=c": true, "sub": false, "with": true, "setpath": true, "with_dtf": false}
 
 func pick(t *rapid.T, pool []string, label string) string {
 	if !pure {
@@ -218,6 +242,10 @@ func Soup(t *rapid.T, depth int) string {
 		// string with interpolation
 		return `"pre\(` + Soup(t, depth-1) + `)post"`
 	default:
+		if rapid.Bool().Draw(t, "dd") {
+			// two small collections over the same words, compared, subtracted or merged
+			return dataLit(t) + " " + rapid.SampledFrom([]string{"-", "==", "!=", "+", "*", "*d", "<"}).Draw(t, "dop") + " " + dataLit(t)
+		}
 		return pick(t, Nullary, "n0")
 	}
 }
@@ -269,7 +297,7 @@ func word(t *rapid.T) string {
 
 func yamlVal(t *rapid.T, depth int, indent string) string {
 	if depth <= 0 {
-		return rapid.SampledFrom([]string{"1", "a", "null", "~", "true", "1.5", "0x1F", "0o7", "'s'", "\"d\\n\"", "*x", "&x 1", "!!str 1", "!t v", "[]", "{}", "[1, a]", "{a: 1}", "|\n" + indent + "  lit", ">-\n" + indent + "  fold", "", "2001-12-14t21:59:43.10-05:00", ".inf", ".nan", "<<"}).Draw(t, "ysc")
+		return rapid.SampledFrom([]string{"1", "a", "null", "~", "true", "1.5", "0x1F", "0o7", "'s'", "\"d\\n\"", "*x", "&x 1", "!!str 1", "!t v", "[]", "{}", "[1, a]", "{a: 1}", "|\n" + indent + "  lit", ">-\n" + indent + "  fold", "", "2001-12-14t21:59:43.10-05:00", ".inf", ".nan", "<<", "eval(.a)", ".a", "eval(.)", "\".[] | eval(.)\""}).Draw(t, "ysc")
 	}
 	switch rapid.IntRange(0, 3).Draw(t, "yk") {
 	case 0:
@@ -358,6 +386,9 @@ func LooseText(t *rapid.T, format string) string {
 	case "toml":
 		return tomlLoose(t)
 	case "lua":
+		if rapid.IntRange(0, 3).Draw(t, "lprog") == 0 {
+			return luaProgram(t)
+		}
 		return "return " + luaLoose(t, rapid.IntRange(0, 3).Draw(t, "d")) + rapid.SampledFrom([]string{";\n", "\n", ""}).Draw(t, "end")
 	case "base64":
 		return rapid.SampledFrom([]string{"YQ==", "YQ", "YWJj", "", "!!!", "YW Jj", "YQ=\n", "4pyT"}).Draw(t, "b64")
@@ -436,6 +467,21 @@ func tomlLoose(t *rapid.T) string {
 			b.WriteString(k + " = " + v + "\n")
 		}
 	}
+	return b.String()
+}
+
+// luaProgram is a terminating Lua chunk of several statements: tables that share or contain each other,
+// globals without a return, several returned values
+func luaProgram(t *rapid.T) string {
+	var b strings.Builder
+	local := rapid.SampledFrom([]string{"local ", ""}).Draw(t, "loc")
+	b.WriteString(local + "t = " + luaLoose(t, rapid.IntRange(1, 2).Draw(t, "d")) + "\n")
+	b.WriteString(local + "u = " + rapid.SampledFrom([]string{"{}", "{t}", "{a = t}", "t", "{1, 2}", "nil"}).Draw(t, "u") + "\n")
+	n := rapid.IntRange(0, 3).Draw(t, "nst")
+	for i := 0; i < n; i++ {
+		b.WriteString(rapid.SampledFrom([]string{"t.a = u", "t[1] = u", "t.self = t", "t[#t + 1] = t", "u = {u}", "t.b = {t.a, t.a}", "t.a = nil", "t[2] = 'x'", "t.f = function() return 1 end", "u = t.a"}).Draw(t, "st") + "\n")
+	}
+	b.WriteString(rapid.SampledFrom([]string{"return t\n", "return t, u\n", "return u\n", "", "return\n", "return {t, t}\n"}).Draw(t, "ret"))
 	return b.String()
 }
 
